@@ -99,7 +99,7 @@ CLAIMED.update({
         "Coq decides by evaluation over the finite domain (1280 option/container valuations x 13 fault points, lifted with forallb_forall) that no Write event ever hits the caller's ontology object and none hits the caller's data object unless inplace. "
         "The callee summaries and the translation are validated by comparing the recorded Clone/Write/Reg/Raised trace of the real code with the program's trace; the property itself is replayed on the real code with quad-level snapshots over "
         "{Graph, Dataset, ConjunctiveGraph} x ontology kinds x inference modes x advanced x iterate_rules x {validate, shacl_rules} x injected failures, shapes kept inside the data graph, containers that already hold graphs with pySHACL's reserved names, and ontologies that owl:import a local file under do_owl_imports=True. "
-        "KNOWN FINDING (listed, not repaired): with do_owl_imports=True and the ontology given as a graph OBJECT the imported documents are loaded into the caller's ontology object (load_from_source, outside the translated pipeline code); the check prints KNOWN-FINDING for exactly that effect and reports any other change of the caller's objects.",
+        "KNOWN FINDING (listed, not repaired): with do_owl_imports=True and the ontology given as a graph OBJECT the imported documents are loaded into the caller's ontology object (load_from_source, outside the translated pipeline code); the check prints KNOWN-FINDING for exactly that effect and reports any other change of the caller's objects. A second listed finding: one graph object handed over both as shacl_graph and as data (or ontology) graph receives the ShapesGraph constructor's two system triples.",
    note="Trusted: Coq kernel + vm_compute; the translator (fail-closed) and PyMini semantics with its ~10 callee summaries; the theorem speaks about the pipeline from Validator / RuleExpandRunner on - the loading stage before it (load_from_source, owl:imports) is covered by the snapshot runs only; that rdflib/owlrl/rules write only into the graph object they are handed is checked by the snapshot table, not proved.",
    technique="translation to a deep embedding + Coq evaluation over a finite domain (proof by reflection) + trace correspondence + fault enumeration on /repo",
    ref="4 (C08)"),
